@@ -590,6 +590,86 @@ pub fn slice_f_run<S: Sch>(rec: &mut Rec) {
     }
 }
 
+
+/// Slice G: twelve polynomials labelled w0..w11 (so that lexicographic label order, w0 w1 w10 w11 w2 ..., differs from
+/// numeric / listing order) opened together at one point label, by `open`/`check` on the full list and by a batch
+/// whose second label takes every other polynomial; prover lists in listing order and reversed.
+pub fn slice_g_run<S: Sch>(rec: &mut Rec) {
+    let cfg = slice_b::<S>();
+    let ids: Vec<String> = ["listing", "reversed"].iter().map(|o| format!("{}/G/twelve-labels/{}", S::NAME, o)).collect();
+    let mine: Vec<bool> = ids.iter().map(|id| rec.take(id)).collect();
+    if !mine.iter().any(|m| *m) {
+        return;
+    }
+    let keys = match build_keys::<S>(&cfg, rec.seed) {
+        Ok(k) => k,
+        Err(_) => return,
+    };
+    let shapes = crate::source::shapes_short::<S>(&cfg, rec.seed);
+    let base = slice_b_polys::<S>(&cfg, rec.seed);
+    let mut polys: Vec<LP<S>> = Vec::new();
+    for k in 0..12usize {
+        // members alternate between the three slice-B polynomials (plain, bounded + hiding, zero with a bound) and the short shapes
+        let src = if k % 4 == 3 { lp::<S>("x", shapes[k % shapes.len()].1.clone(), None, None) } else { base[k % 3].clone() };
+        polys.push(lp::<S>(&format!("w{}", k), src.polynomial().clone(), src.degree_bound(), src.hiding_bound()));
+    }
+    let labels = slice_b_labels::<S>(&cfg, rec.seed);
+    let c = match commit_set::<S>(&keys, polys, rec.seed, 0) {
+        Ok(c) => c,
+        Err(o) => {
+            fail(rec, S::NAME, "commit", "twelve-labels", &ids[0], format!("commit failed: {}", o.short()));
+            return;
+        }
+    };
+    for (oi, id) in ids.iter().enumerate() {
+        if !mine[oi] {
+            continue;
+        }
+        rec.dim("scheme", S::NAME);
+        rec.dim("slice", "G");
+        rec.op(4);
+        let order: Vec<usize> = if oi == 0 { (0..12).collect() } else { (0..12).rev().collect() };
+        match open_single::<S>(&keys, &c, &order, &labels[2].1, 0, rec.seed, 0) {
+            Ok(s1) => {
+                let comms: Vec<&LCm<S>> = order.iter().map(|i| &c.comms[*i]).collect();
+                let d = check_single::<S>(&keys, &comms, &s1.point, &s1.values, &s1.proof, 0, rec.seed, 0);
+                rec.class(d.class());
+                if !d.accepted() {
+                    fail(rec, S::NAME, "check", "twelve-labels", id, format!("honest opening of twelve polynomials at one point not accepted: {}", d.short()));
+                }
+            }
+            Err(o) => fail(rec, S::NAME, "open", "twelve-labels", id, format!("open failed: {}", o.short())),
+        }
+        let mut qs = QuerySet::<S::Pt>::new();
+        for k in 0..12usize {
+            qs.insert((format!("w{}", k), (labels[0].0.clone(), labels[0].1.clone())));
+            if k % 2 == 1 {
+                qs.insert((format!("w{}", k), (labels[2].0.clone(), labels[2].1.clone())));
+            }
+        }
+        match open_batch::<S>(&keys, &c, &order, &qs, 0, rec.seed, 0) {
+            Ok(b) => {
+                let comms: Vec<&LCm<S>> = c.comms.iter().collect();
+                let d = check_batch::<S>(&keys, &comms, &b.qs, &b.evals, &b.proof, 0, rec.seed, 0);
+                rec.class(d.class());
+                if !d.accepted() {
+                    fail(rec, S::NAME, "batch_check", "twelve-labels", id, format!("honest batch over twelve labelled polynomials not accepted: {}", d.short()));
+                }
+                // and one false claim in the lexicographically LAST group member is still caught
+                let mut bad = b.evals.clone();
+                if let Some(v) = bad.get_mut(&("w9".to_string(), labels[0].1.clone())) {
+                    *v += <S::F as ark_ff::One>::one();
+                    let d2 = check_batch::<S>(&keys, &comms, &b.qs, &bad, &b.proof, 0, rec.seed, 0);
+                    if d2.accepted() {
+                        fail(rec, S::NAME, "batch_check", "twelve-labels-false-claim-accepted", id, "value of w9 + 1 accepted".into());
+                    }
+                }
+            }
+            Err(o) => fail(rec, S::NAME, "batch_open", "twelve-labels", id, format!("batch_open failed: {}", o.short())),
+        }
+    }
+}
+
 /// Univariate Ligero: polynomials of different sizes (different column counts; equal column counts
 /// with different row counts) opened by ONE open / check call and by a one-label batch, every ordered pair.
 pub fn lig_one_call(rec: &mut Rec) {
@@ -644,6 +724,7 @@ pub fn run(rec: &mut Rec) {
         slice_c_run::<S>(rec);
         slice_e_run::<S>(rec);
         slice_f_run::<S>(rec);
+        slice_g_run::<S>(rec);
     });
     if rec.thorough() {
         slice_a_run::<SMar377>(rec, 3);
